@@ -254,12 +254,17 @@ impl TransactionManager {
                 continue;
             }
             if other_info.state == TxState::Committed {
-                // Check if any of our writes conflict with their writes
-                for entity in &our_write_set {
-                    if other_info.write_set.contains(entity) {
-                        return Err(Error::Transaction(TransactionError::WriteConflict(
-                            format!("Write-write conflict on entity {:?}", entity),
-                        )));
+                // Only a writer that committed after we started overlaps with us
+                if let Some(commit_epoch) = committed.get(other_tx)
+                    && commit_epoch.as_u64() > our_start_epoch.as_u64()
+                {
+                    // Check if any of our writes conflict with their writes
+                    for entity in &our_write_set {
+                        if other_info.write_set.contains(entity) {
+                            return Err(Error::Transaction(TransactionError::WriteConflict(
+                                format!("Write-write conflict on entity {:?}", entity),
+                            )));
+                        }
                     }
                 }
             }
